@@ -34,6 +34,7 @@ THEOREMS = [
     "Mesa.Cont.C10_legacy_zero_distance_iff_same_point",
     "Mesa.Cont.C10_legacy_negative_radius",
     "Mesa.Cont.C10_legacy_move_foreign_agent",
+    "Mesa.Cont.C10_legacy_direct_pos_write",
     "Mesa.Cont.C10_exp_radius_exact",
     "Mesa.Cont.C10_exp_distances_exact",
     "Mesa.Cont.C10_exp_subset_queries_exact",
@@ -79,7 +80,7 @@ ASSUMPTIONS = [
 ]
 RULE = ("random histories over both classes (50/50; 10% from the rejecting-call stream of C18): bounds with negative / non-unit origins and sizes 1/64 .. 15.6, torus on/off, "
         "experimental: 1-D .. 5-D (2-D and 3-D most often) and initial capacities {0,1,2,3,5,50,100}; 4-45 ops from place/new+set, move/set (12% per-axis out of bounds, "
-        "coincident and boundary positions), `position += v`, item writes into the returned position, raw writes through the `space.agent_positions` view, references to that view kept across later calls (read and written after re-slicing and re-allocation), the ignored `pos` setter, vectors with one coordinate or with nd-1 / nd+1 coordinates in every call that takes a point (2 % of the ops of spaces with nd >= 2) (experimental), remove, every agent method on removed agent objects, pos, agents, radius / k-nearest (k in 0..n+1, often n) / neighbour queries incl. on the "
+        "coincident and boundary positions), `position += v`, item writes into the returned position, raw writes through the `space.agent_positions` view, references to that view kept across later calls (read and written after re-slicing and re-allocation), the ignored `pos` setter, vectors with one coordinate or with nd-1 / nd+1 coordinates in every call that takes a point (2 % of the ops of spaces with nd >= 2) (experimental), legacy `agent.pos = p` assigned directly by the user (2.5% of the ops, mostly right after a cache-building query, followed by queries at the old and the new position), remove, every agent method on removed agent objects, pos, agents, radius / k-nearest (k in 0..n+1, often n) / neighbour queries incl. on the "
         "empty space and right after a cached read + move, distances and heading/difference vectors (30% of the toroidal ones exactly half the size apart: the tie of the heading rule); radii aimed at exact agent distances; "
         "non-trivial = >= 2 agents in the space at some point, a mutation after the first query and a query answer naming an agent; "
         "distinct = distinct op-line sequences (sha1)")
@@ -102,7 +103,7 @@ run_impl = C.run_impl
 oracle = C.oracle
 
 QUERIES = ("nbrs", "radius", "knn", "nir", "nn", "dists")
-MUTATORS = ("place", "move", "set", "remove", "new", "iadd", "raw", "hraw")
+MUTATORS = ("place", "move", "set", "remove", "new", "iadd", "raw", "hraw", "setpos")
 
 
 def nontrivial(sc, obs):
@@ -171,6 +172,8 @@ def tags(sc, obs):
         if w[0] in QUERIES + ("diffs", "agents") and not live:
             yield "branch:query-on-empty-space"
         if kind == "legacy":
+            if w[0] == "setpos" and w[1] in live:
+                yield "branch:direct-pos-write-" + ("with-live-cache" if cached else "without-cache")
             if w[0] == "nbrs":
                 cached = True
             elif w[0] in ("place", "remove") and o == "ok":
